@@ -275,6 +275,17 @@ def run(ck, prog, tier, load):
     from .c04 import eof_fails_body_first
     eof_fails_body_first(ck, prog, "C07-c")
 
+    # ---- (c) truthful ending, HTTP/2 side: the request-body stream ends cleanly only when the peer's stream ended ------
+    for hb in prog.find(r"^<actix_http::h2::Payload as futures_core::stream::Stream>::poll_next$"):
+        ends = [(bb, e) for bb, e in hb.ret_exprs() if is_agg(e, r"Poll::Ready$") and e[3] and is_agg(e[3][0], r"Option::None$")]
+        ck.anchor("C07-c", len(ends), 1, "clean end (Ready(None)) of the h2 request-body stream")
+        for bb, e in ends:
+            gs = hb.guards(bb)
+            src_none = any(c[0] == "discr" and e_calls(c, r"RecvStream::poll_data$") and lab == "None" for c, lab, a in gs)
+            on_err = any(c[0] == "discr" and lab == "Err" for c, lab, a in gs)
+            ck.ob("C07-c.h2-end-only-at-stream-end", "h2::Payload::poll_next", src_none and not on_err, hb, bb,
+                  "Ready(None) is returned only on poll_data's None (END_STREAM seen); an error of the stream (a reset, whatever its reason code) is never turned into a clean end")
+
 
 def register_impl(ck, prog, P):
     """Inner::register / register_io store the polling task's waker (replacing a waker of another task); shared by
